@@ -32,6 +32,7 @@ SCENARIOS = [      # (script, events, failing handlers, handlers that call stop(
     (["start", "cleanup"], 2, [], [], "none", "none"),
     (["start", "stop", "cleanup", "start"], 2, [1], [], "none", "none"),
     (["start", "cleanup", "endrep"], 2, [], [1], "none", "none"),
+    (["start"], 2, [], [-1], "none", "none"),                     # the handler of event 1 calls cleanup() (what WARN_AND_END does)
     # ---- thorough only
     (["start", "stop"], 1, [], [], "none", "none"),
     (["stop", "start", "start"], 1, [], [], "none", "none"),
@@ -48,7 +49,8 @@ KNOWN = ["NoStuckStateK", "StartEffectiveK", "NoSpuriousSegment", "CleanupFinalK
 
 
 def consts(script, nev, faulty, stoppers=(), onstart="none", onstop="none", fixes=(), anyto=False):
-    return {"Script": L(script), "NEvents": str(nev), "Faulty": S(faulty), "Stoppers": S(list(stoppers)), "OnStart": L(onstart), "OnStop": L(onstop), "Fixes": S(list(fixes)),
+    # (a negative entry -k in `stoppers` means: the handler of event k calls cleanup() instead of stop())
+    return {"Script": L(script), "NEvents": str(nev), "Faulty": S(faulty), "Stoppers": S([k for k in stoppers if k > 0]), "Cleaners": S([-k for k in stoppers if k < 0]), "OnStart": L(onstart), "OnStop": L(onstop), "Fixes": S(list(fixes)),
             "AnyTimeout": "TRUE" if anyto else "FALSE"}
 
 
@@ -88,6 +90,11 @@ def signatures(log, final):
     rep_writes = [d for d in log if d["k"] == "W" and d["v"] == "rep"]
     if final["rep"] == "ENDING" and len(rep_writes) >= 2 and rep_writes[-1]["t"] == "c" and rep_writes[-2]["t"] == "w" and rep_writes[-2]["x"] == "ENDED":
         sig.add("race|late_ending_write")
+    for k, d in enumerate(log):
+        if d["t"] == "w" and d["k"] == "W" and d["v"] == "rs" and d["x"] == "NOT_INITIALIZED":      # cleanup() on the run thread ...
+            nxt = next((e for e in log[k + 1:] if e["t"] == "w" and e["k"] == "W" and e["v"] == "rs"), None)
+            if nxt is not None and nxt["x"] == "STOPPED":                                          # ... which then writes STOPPED over it
+                sig.add("listener|cleanup_in_handler_overwritten")
     for k, d in enumerate(log):
         if d["t"] == "w" and d["k"] == "W" and d["v"] == "rs" and d["x"] == "STARTING":      # only a listener's start() writes STARTING on the run thread
             nxt = next((e for e in log[k + 1:] if e["t"] == "w" and e["k"] == "ev" and e["v"] in ("clear", "woke")), None)
@@ -162,7 +169,7 @@ def observables(ctx, sc, label, case):
                 probs.append(("lost_start", f"a start() on thread {d['t']} wrote STARTING and returned, but the run thread neither executed an event nor ended the replication afterwards; "
                                             f"final run_state {st['rs']}, {starts_ok} accepted start(s), {segments} segment(s)"))
                 break
-    if ("cleanup", "ok") in st["results"] and (st["rs"] != "NOT_INITIALIZED" or st["rep"] != "NOT_INITIALIZED" or "w" not in st["done"]):
+    if (("cleanup", "ok") in st["results"] or ("cleanup@handler", "ok") in st["results"]) and (st["rs"] != "NOT_INITIALIZED" or st["rep"] != "NOT_INITIALIZED" or "w" not in st["done"]):
         probs.append(("cleanup_not_final", f"cleanup() returned but at quiescence run_state = {st['rs']}, replication_state = {st['rep']}, run thread finished = {'w' in st['done']}"))
     ends_ok = sum(1 for c_, r in st["results"] if c_ == "end_replication" and r == "ok")
     if ends_ok and (st["rep"] != "ENDED" or st["rs"] != "ENDED" or "w" not in st["done"]):
@@ -170,7 +177,7 @@ def observables(ctx, sc, label, case):
     if st["rep"] == "ENDED" and (st["rs"] != "ENDED" or "w" not in st["done"]):
         probs.append(("ended_not_final", f"replication ENDED but run_state = {st['rs']}, run thread finished = {'w' in st['done']}"))
     for k0, d in enumerate(log):
-        if d["t"] == "w" and d["k"] == "exec" and int(d["x"]) in getattr(sc.model, "stoppers", ()):
+        if d["t"] == "w" and d["k"] == "exec" and int(d["x"]) in [k_ for k_ in getattr(sc.model, "stoppers", ()) if k_ > 0]:
             seg = []
             for e in log[k0 + 1:]:
                 if e["t"] == "w" and e["k"] == "W" and e["v"] == "rs" and e["x"] in ("STOPPED", "ENDED"):
@@ -196,7 +203,9 @@ def observables(ctx, sc, label, case):
                 probs.append(("stop_lost", f"stop() wrote STOPPING but the run thread executed {nexec} more events before parking"))
     for key, detail in probs:
         k = None
-        if key == "stop_from_listener_ignored" and "listener|stop_in_start_listener_overwritten" in sig:
+        if key == "cleanup_not_final" and "listener|cleanup_in_handler_overwritten" in sig and st["rs"] == "STOPPED" and st["rep"] == "NOT_INITIALIZED" and "w" in st["done"]:
+            k = "listener|cleanup_in_handler_overwritten"
+        elif key == "stop_from_listener_ignored" and "listener|stop_in_start_listener_overwritten" in sig:
             k = "listener|stop_in_start_listener_overwritten"
         elif key == "lost_start" and "listener|start_in_stop_listener_lost" in sig:
             k = "listener|start_in_stop_listener_lost"
@@ -288,7 +297,7 @@ def overlap_layer(ctx: Ctx):
         diverged = 0
         nbeh = 0
         all_traces = {}
-        for si, (script, nev, faulty, stoppers, onstart, onstop) in enumerate(SCENARIOS[: ctx.pick(12, len(SCENARIOS))]):
+        for si, (script, nev, faulty, stoppers, onstart, onstop) in enumerate(SCENARIOS[: ctx.pick(13, len(SCENARIOS))]):
             c = consts(script, nev, faulty, stoppers, onstart, onstop)
             # exhaustive: strict invariants expose the known races, the K-invariants must hold
             files, mod, cfg = tlc.mc_files("MC_SimThreads", "SimThreads", c, invariants=KNOWN)
